@@ -61,7 +61,12 @@ func checkC13(c *Ctx) {
 		"K-C13-xhat: x̄ = 2^127 + (x mod 2^127)",
 		"K-C02-kdf: the KDF that turns xV||yV||ZA||ZB into the shared key is SM3(Z||ct), ct = 1,2,… with the hash reset per block (the rule of C02, evaluated here too because the agreed key beyond 32 bytes depends on it)")
 	c.NotDec = append(c.NotDec, "numerical equality of the derived keys with GM/T 0003.3 (curve arithmetic is C03, SM3 is C04)")
+	c13Inputs(c)
 	c02KDF(c)
+	c01ZA(c)     // ZA/ZB are the ZA of C01
+	c03Tables(c) // V = [t](P + [x]R) uses the curve addition: its special cases (rules of C03)
+	c03Formulas(c)
+	c03Special(c)
 	f := c.Fn("sm2", "keyExchange")
 	if f == nil {
 		c.Missing("K-C13-formulas", "sm2.keyExchange", "function", "not found")
@@ -394,4 +399,39 @@ func c13XHat(c *Ctx) {
 		}
 	})
 	c.Check(zeroLoop && mask, "K-C13-xhat", fn, "keeps the low 127 bits of x", "", "keXHat must clear everything above bit 126 of x (bytes before the last 16 and the top bit of byte len-16)", f.Pos())
+}
+
+// c13Inputs: the key exchange reads its long-term and ephemeral keys; it must not change them. big.Int arithmetic done
+// "in place" on pri.D (t computed into the caller's private scalar) makes every later exchange with the same key use t
+// as the private key: the first session agrees, every later one does not.
+func c13Inputs(c *Ctx) {
+	noPointerParamWrites(c, "FX-C13-inputs", "sm2", []string{"keyExchange", "KeyExchangeA", "KeyExchangeB"}, "a key object changed by one exchange gives different results in the next")
+}
+
+// noPointerParamWrites: nothing reachable from a pointer parameter of the named functions is written (key objects, their
+// big.Int fields: `priv.D.Add(priv.D, one)` computes d+1 into the caller's private key)
+func noPointerParamWrites(c *Ctx, rule, pkg string, names []string, consequence string) {
+	fx := getFX(c)
+	for _, n := range names {
+		f := c.Fn(pkg, n)
+		if f == nil {
+			c.Missing(rule, pkg+"."+n, "function", "not found")
+			continue
+		}
+		w := fx.Writes(f)
+		for i, p := range f.Params {
+			if _, isPtr := p.Type().Underlying().(*types.Pointer); !isPtr {
+				continue
+			}
+			var wit witness
+			var at root
+			bad := false
+			for r, wv := range w {
+				if r.Kind == rkParam && r.Idx == i {
+					bad, wit, at = true, wv, r
+				}
+			}
+			c.Check(!bad, rule, fname(f), "does not modify "+pname(p), "", "memory reachable from the caller's "+pname(p)+" is written: "+fx.describe(at, wit)+" — "+consequence, wit.Pos)
+		}
+	}
 }
